@@ -21,6 +21,7 @@ bootstrap.init()
 import demeter  # noqa: E402
 from demeter import Actuator, Strategy, TokenInfo, MarketInfo, Snapshot  # noqa: E402
 from demeter.strategy.trigger import CustomizedTrigger  # noqa: E402
+from demeter._typing import USD  # noqa: E402
 
 PHASES = ("before_bar", "trigger", "on_bar", "after_bar", "notify")
 
@@ -175,7 +176,7 @@ def id_of(sim, action):
 
 
 class Sim:
-    def __init__(self, scenario, oracle: Oracle | None = None, trace=False):
+    def __init__(self, scenario, oracle: Oracle | None = None, trace=False, strategy_cls=None):
         self.scenario = scenario
         self.world = scenario["world"]
         self.program = scenario.get("program", [])
@@ -189,6 +190,7 @@ class Sim:
         self.snapshot = None
         self.crash = None
         self.trace_enabled = trace
+        self.strategy_cls = strategy_cls
         self.markets = {}  # name -> market object
         self.mdata = {}  # name -> my own pristine copy of what was fed (dict of python values)
         self.tokens = {}
@@ -234,7 +236,7 @@ class Sim:
             pidx = self.index if "price_index" not in w else pd.DatetimeIndex([pd.Timestamp(t) for t in w["price_index"]])
             pdf = pd.DataFrame(cols, index=pidx)
             q = w.get("quote", "USD")
-            qt = demeter.USD if q == "USD" else self.token(q)
+            qt = USD if q == "USD" else self.token(q)
             self.my_prices = pdf.copy()
             self.actuator.set_price(pdf, qt)
         else:
@@ -242,7 +244,7 @@ class Sim:
             self.actuator.set_price(m0.get_price_from_data())
             self.my_prices = None
         self.actuator.interval = w.get("interval", "1min")
-        self.strategy = ScriptedStrategy(self)
+        self.strategy = (self.strategy_cls or ScriptedStrategy)(self)
         self.actuator.strategy = self.strategy
         self.actuator.print_action = False
         if self.trace_enabled:
